@@ -69,6 +69,16 @@ def make_sim(kind, cfg):
         from architecture_simulator.simulation.toy_simulation import ToySimulation
 
         return ToySimulation()
+    if cfg.get("via_state"):
+        # the other public way to build a simulation: an explicitly constructed architectural state handed to
+        # RiscvSimulation(state=...), the mode argument left at its default or matching
+        from architecture_simulator.simulation.riscv_simulation import RiscvSimulation
+        from architecture_simulator.uarch.riscv.riscv_architectural_state import RiscvArchitecturalState
+        from ..common import cache_options
+
+        pm = "".join(list("five_stage_pipeline" if kind == "five" else "single_stage_pipeline"))
+        st = RiscvArchitecturalState(pipeline_mode=pm, detect_data_hazards=cfg.get("hz", True), data_cache_options=cache_options(cfg.get("dcache")), instruction_cache_options=cache_options(cfg.get("icache")))
+        return RiscvSimulation(state=st, mode=pm) if cfg["via_state"] == "matching" else RiscvSimulation(state=st)
     return make_riscv("five" if kind == "five" else "single", hz=cfg.get("hz", True), dcache=cfg.get("dcache"), icache=cfg.get("icache"))
 
 
@@ -323,6 +333,8 @@ def gen_life_case(rng):
             text = rng.choice(["", "# nothing", ".data\nv: .word 3"])
             terminal = "empty"
         history = [rng.choice(BAD_TEXTS_TOY) if rng.random() < 0.5 else T.gen_source(rng)["text"] for _ in range(rng.choice([0, 1, 2, 3, 5]))]
+        if rng.random() < 0.2:
+            history.insert(rng.randint(0, len(history)), text)
         # TOY programs may loop: bound the steps; after_done only reached when done
         if rng.random() < 0.15:
             return {"kind": "life", "sim": "toy", "cfg": {}, "text": rng.choice(BAD_TEXTS_TOY), "regs": {}, "terminal": "bad", "final_bad": True, "history": history or [T.gen_source(rng)["text"]], "max_steps": 10, "after_done": []}
@@ -336,13 +348,26 @@ def gen_life_case(rng):
     history = []
     for _ in range(rng.choice([0, 1, 2, 3, 5])):
         history.append(rng.choice(BAD_TEXTS_RV) if rng.random() < 0.5 else asm_text(gen_rv_program(rng)[0]))
+    if rng.random() < 0.2:
+        history.insert(rng.randint(0, len(history)), text)  # the very same text was loaded before (editor re-assembles)
+    if rng.random() < 0.15:
+        cfg["via_state"] = rng.choice(["default", "matching"])
     if rng.random() < 0.15:
         return {"kind": "life", "sim": kind, "cfg": cfg, "text": rng.choice(BAD_TEXTS_RV), "regs": {}, "terminal": "bad", "final_bad": True, "history": history or [text], "max_steps": 10, "after_done": []}
     return {"kind": "life", "sim": kind, "cfg": cfg, "text": text, "regs": regs, "terminal": terminal, "history": history, "max_steps": 700, "after_done": [rng.choice(["step", "run", "step"]) for _ in range(4)]}
 
 
+OVERSIZED_RV = "\n".join(["addi x1, x1, 1"] * 4100)  # fails after 4096 instructions have been written
+OVERSIZED_TOY = "\n".join(["INC"] * 4100)
+
+
 def directed_life():
     D = []
+    small = "addi x1, x0, 5\naddi x2, x1, 1\naddi a7, x0, 93\necall"
+    for kind in ("single", "five"):
+        D.append({"kind": "life", "sim": kind, "cfg": {"hz": True, "dcache": None, "icache": None}, "text": small, "regs": {}, "terminal": "exit_ecall", "history": [small, OVERSIZED_RV], "max_steps": 60, "after_done": ["step", "run"]})
+    D.append({"kind": "life", "sim": "five", "cfg": {"hz": True, "dcache": None, "icache": None, "via_state": "default"}, "text": small, "regs": {}, "terminal": "exit_ecall", "history": [], "max_steps": 60, "after_done": ["step", "run"]})
+    D.append({"kind": "life", "sim": "toy", "cfg": {}, "text": "INC\nSTO 9\nL: DEC", "regs": {}, "terminal": "toy", "history": ["INC\nSTO 9\nL: DEC", OVERSIZED_TOY], "max_steps": 50, "after_done": ["step", "run"]})
     exit_prog = "addi a7, x0, 93\naddi a0, x0, 3\necall\naddi x5, x0, 1\nsw x5, 0(x6)\necall\naddi x7, x0, 2"
     for kind in ("single", "five"):
         for dc in (None, {"ib": 0, "bb": 0, "assoc": 1, "policy": "lru", "wt": False, "pen": 3}):
